@@ -282,11 +282,20 @@ def argstr_obligations(ctx):
     class ArgCls(SymVal):
         def sym_getattr(s, it, n):
             if n == '_argstr_lw': return LW
-            if n == '_argstr_pclass': return Contract(lambda it, **kw: ParserTok(), 'Argument._argstr_pclass(auto_preds=True)')
+            if n == '_argstr_pclass': return Contract(lambda it, **kw: ParserTok(fresh=True, opts=kw), 'Argument._argstr_pclass(auto_preds=True)')
+            # any parser OBJECT kept on the class outlives the call: it remembers the predicates it auto-declared for earlier strings
+            from pytableaux.lang import Parser as _P
+            v = getattr(Argument, n, None)
+            if isinstance(v, _P): return ParserTok(fresh=False, opts=dict(v.opts))
             raise Outside(f'Argument.{n}')
+    used = []
     class ParserTok(SymVal):
+        def __init__(s, fresh, opts): s.fresh, s.opts = fresh, opts
         def sym_getattr(s, it, n):
-            if n == 'argument': return Contract(lambda it, conc, prems, title=None: ('argument', conc, list(it.iterate(prems)), title), 'Parser.argument(conclusion, premises)')
+            if n == 'argument':
+                def argument(it, conc, prems, title=None):
+                    used.append(s); return ('argument', conc, list(it.iterate(prems)), title)
+                return Contract(argument, 'Parser.argument(conclusion, premises)')
             raise Outside(f'Parser.{n}')
     a, b, c = Sent('a'), Sent('b'), Sent('c')
     bad = None; und = None
@@ -314,8 +323,10 @@ def argstr_obligations(ctx):
         pieces = text.split(':')
         if len(prs) != 1 or prs[0].kind != 'return' or prs[0].value != ('argument', pieces[0], pieces[1:], None):
             bad2 = dict(argstr=text, got=str(prs[0].value)[:120] if prs else None); break
+        if not used or not used[-1].fresh or not used[-1].opts.get('auto_preds'):
+            bad2 = dict(argstr=text, note='the string is not parsed by a parser of its own with auto_preds=True: a parser kept between calls remembers the predicate arities of earlier strings, so the result depends on the history'); break
     if und2: ctx.add_result(Result('C12.Argument.from_argstr', 'unknown', detail=und2, where=where2))
-    else: ctx.add(enum_ob('C12.Argument.from_argstr', bad2 is None, where=where2, cex=bad2, clause='from_argstr(t) parses the first ":"-piece as the conclusion and every other piece, in order, as a premise'))
+    else: ctx.add(enum_ob('C12.Argument.from_argstr', bad2 is None, where=where2, cex=bad2, clause='from_argstr(t) parses the first ":"-piece as the conclusion and every other piece, in order, as a premise, with a parser created for this call (auto_preds=True)'))
 
 def table_obligations(ctx):
     "ground facts about the live Polish/ascii tables that make the prefix code uniquely decodable"
@@ -496,7 +507,16 @@ def replay_argstr(r):
         try: back = Argument.from_argstr(t); back2 = Argument(t)
         except Exception as e: out.append(f'{t!r}: {type(e).__name__}'); continue
         if back != arg or back2 != arg or len(back) != len(arg): out.append(f'argument with {len(arg)} members -> argstr {t!r} -> argument with {len(back)} members')
-    return dict(reproduced=bool(out), detail='; '.join(out) or 'round trips')
+    # history: the same predicate symbol with another arity in a LATER, separate argument string
+    from pytableaux.lang import Predicate, Constant
+    m, n = Constant(0, 0), Constant(1, 0)
+    for first, second in ((Predicate(0, 0, 1)(m), Predicate(0, 0, 2)(m, n)), (Predicate(1, 0, 2)(m, n), Predicate(1, 0, 1)(n))):
+        a1, a2 = Argument(first, (first,)), Argument(second, (second,))
+        try:
+            if Argument.from_argstr(a1.argstr()) != a1: out.append(f'{a1.argstr()!r} does not round-trip')
+            if Argument.from_argstr(a2.argstr()) != a2: out.append(f'{a2.argstr()!r} does not round-trip after {a1.argstr()!r}')
+        except Exception as e: out.append(f'{a2.argstr()!r} after {a1.argstr()!r}: {type(e).__name__}: {e}')
+    return dict(reproduced=bool(out), detail='; '.join(out[:3]) or 'round trips')
 
 def replay(payload):
     if payload.get('kind') == 'bounded':
